@@ -11,3 +11,6 @@ import Lace.Basic.Keys
 import Lace.Model.Editor
 import Lace.Spec.RefEditor
 import Lace.Props.C20
+import Lace.Spec.CmdGrammar
+import Lace.Model.Cmd.Reader
+import Lace.Props.C14
